@@ -609,6 +609,7 @@ pub unsafe extern "C" fn biscuit_builder_build(
 
     let slice = std::slice::from_raw_parts(seed_ptr, seed_len);
     if slice.len() != 32 {
+        update_last_error(Error::InvalidArgument);
         return None;
     }
 
@@ -623,6 +624,7 @@ pub unsafe extern "C" fn biscuit_builder_build(
         .build_with_rng(&key_pair.0, SymbolTable::default(), &mut rng)
         .map(Biscuit)
         .map(Box::new)
+        .map_err(|e| update_last_error(Error::Biscuit(e)))
         .ok()
 }
 
@@ -644,6 +646,7 @@ pub unsafe extern "C" fn biscuit_from<'a>(
     biscuit_auth::Biscuit::from(biscuit, root.0)
         .map(Biscuit)
         .map(Box::new)
+        .map_err(|e| update_last_error(Error::Biscuit(e)))
         .ok()
 }
 
@@ -875,7 +878,13 @@ pub unsafe extern "C" fn biscuit_authorizer<'a>(
     }
     let biscuit = biscuit?;
 
-    (*biscuit).0.authorizer().map(Authorizer).map(Box::new).ok()
+    (*biscuit)
+        .0
+        .authorizer()
+        .map(Authorizer)
+        .map(Box::new)
+        .map_err(|e| update_last_error(Error::Biscuit(e)))
+        .ok()
 }
 
 #[no_mangle]
@@ -1139,7 +1148,7 @@ pub unsafe extern "C" fn authorizer_builder_build(
     if builder.is_none() {
         update_last_error(Error::InvalidArgument);
     }
-    let builder = builder.unwrap();
+    let builder = builder?;
     builder
         .0
         .clone()
@@ -1148,6 +1157,7 @@ pub unsafe extern "C" fn authorizer_builder_build(
         .build(&token.0)
         .map(Authorizer)
         .map(Box::new)
+        .map_err(|e| update_last_error(Error::Biscuit(e)))
         .ok()
 }
 
@@ -1161,7 +1171,7 @@ pub unsafe extern "C" fn authorizer_builder_build_unauthenticated(
     if builder.is_none() {
         update_last_error(Error::InvalidArgument);
     }
-    let builder = builder.unwrap();
+    let builder = builder?;
     builder
         .0
         .clone()
@@ -1170,6 +1180,7 @@ pub unsafe extern "C" fn authorizer_builder_build_unauthenticated(
         .build_unauthenticated()
         .map(Authorizer)
         .map(Box::new)
+        .map_err(|e| update_last_error(Error::Biscuit(e)))
         .ok()
 }
 
